@@ -72,6 +72,7 @@ def gen_scenario(rng, *, family='well', cyclic=False, init_env=False,
         })
     scn = {
         'kind': 'sched',
+        'salt': rng.randrange(1 << 30),
         'tasks': tasks,
         'workers': rng.choice((1, 2, 2, 3, 3, 4, 5)),
         'tick': rng.choice(TICKS),
@@ -145,6 +146,18 @@ def make_group(rng, scn):
     scn['group'] = {'members': members, 'inner': {str(i): inner[i]
                                                   for i in members},
                     'deps': gdeps, 'dependees': gdependees}
+
+
+def node_order(scn):
+    '''The order in which the tasks are created, hashed and handed to the
+    graphs is a seeded permutation: nothing may rely on the harness numbering
+    the tasks in topological order.  perm[i] is the rank (and hash) of task
+    i.'''
+    ntask = len(scn['tasks'])
+    salt = scn.get('salt')
+    if salt is None:
+        return list(range(ntask))
+    return random.Random(salt * 31 + ntask).sample(range(ntask), ntask)
 
 
 def is_cyclic(scn):
@@ -298,6 +311,7 @@ def build_tasks(scn, mods, recorder, run_tag='r', run_no=0):
     specs = scn['tasks']
     direct = [sorted(set(t['hard']) | set(t['soft'])) for t in specs]
     objs = [None] * len(specs)
+    rank = node_order(scn)
 
     def body(i, env):
         sim = core.cur_sim()
@@ -338,7 +352,7 @@ def build_tasks(scn, mods, recorder, run_tag='r', run_no=0):
             self.idx = idx
 
         def __hash__(self):
-            return self.idx
+            return rank[self.idx]
 
         def __eq__(self, other):
             return self is other
@@ -352,7 +366,7 @@ def build_tasks(scn, mods, recorder, run_tag='r', run_no=0):
             self.idx = idx
 
         def __hash__(self):
-            return self.idx
+            return rank[self.idx]
 
         def __eq__(self, other):
             return self is other
@@ -379,12 +393,12 @@ def build_graphs(scn, mods, objs):
     api = scn.get('graph_api', 'add')
     specs = scn['tasks']
     if api == 'dict':
+        rank = node_order(scn)
+        by_rank = sorted(range(len(specs)), key=lambda i: rank[i])
         hard = dg.from_dependency_dictionary(
-            {objs[i]: [objs[j] for j in spec['hard']]
-             for i, spec in enumerate(specs)})
+            {objs[i]: [objs[j] for j in specs[i]['hard']] for i in by_rank})
         soft = dg.from_dependency_dictionary(
-            {objs[i]: [objs[j] for j in spec['soft']]
-             for i, spec in enumerate(specs)})
+            {objs[i]: [objs[j] for j in specs[i]['soft']] for i in by_rank})
         return hard, soft
     if api == 'tasks':
         # like valjean.cambronne.common.build_graphs on the tasks that
@@ -406,7 +420,9 @@ def build_graphs(scn, mods, objs):
     hard, soft = dg(), dg()
     group = scn.get('group') if api == 'nested' else None
     members = set(group['members']) if group else set()
-    for i, spec in enumerate(specs):
+    rank = node_order(scn)
+    by_rank = sorted(range(len(specs)), key=lambda i: rank[i])
+    for i in by_rank:
         if i not in members:
             hard.add_node(objs[i])
         soft.add_node(objs[i])
@@ -422,7 +438,8 @@ def build_graphs(scn, mods, objs):
             hard.add_dependency(sub, on=objs[j])
         for k in group['dependees']:
             hard.add_dependency(objs[k], on=sub)
-    for i, spec in enumerate(specs):
+    for i in by_rank:
+        spec = specs[i]
         if i not in members:
             for j in spec['hard']:
                 if j not in members:
